@@ -469,6 +469,20 @@ class Unit:
         if self.dimensions is logarithmic and p != 1:
             raise InvalidUnitOperation(f"Tried to raise '{self}' to power '{p}'")
 
+        if self.base_offset:
+            if p != 1:
+                raise InvalidUnitOperation(
+                    "Quantities with dimensions of angle or units of "
+                    f"Fahrenheit or Celsius cannot be raised to a power ('{self}**{p}')."
+                )
+            return Unit(
+                self.expr,
+                base_value=self.base_value,
+                base_offset=self.base_offset,
+                dimensions=self.dimensions,
+                registry=self.registry,
+            )
+
         return Unit(
             self.expr**p,
             base_value=(self.base_value**p),
